@@ -30,11 +30,10 @@ type segment struct {
 
 // obsVar is what is observed of one variable after a step.
 type obsVar struct {
-	elems    []int64   // flattened contents (a trailing Tail{List} is spliced in)
-	bad      string    // non-empty: representation outside the model (non-list, non-fixnum element, dotted, Tail{nil})
-	tailList bool      // the representation holds a Tail whose value is a list
-	segs     []segment // Go-level shape (empty for models without slices)
-	present  bool      // the variable holds a list object (possibly of length 0) rather than nil
+	elems   []int64   // flattened contents (a trailing Tail{List} is spliced in)
+	bad     string    // non-empty: representation outside the model (non-list, non-fixnum element, dotted, Tail{nil})
+	segs    []segment // Go-level shape (empty for models without slices)
+	present bool      // the variable holds a list object (possibly of length 0) rather than nil
 }
 
 func (o *obsVar) empty() bool { return len(o.elems) == 0 }
@@ -234,7 +233,7 @@ func (t *track) advance(o *opDef, pre, post *[3]obsVar) {
 			if inherited != "" {
 				t.origin[p] = inherited
 			} else {
-				t.origin[p] = o.name
+				t.origin[p] = o.fn
 			}
 		}
 	}
@@ -336,15 +335,6 @@ func digest(s string) string {
 	return hex.EncodeToString(h[:12])
 }
 
-func reprOf(o *opDef, pre *[3]obsVar) string {
-	for _, v := range []int{o.s, o.t} {
-		if 0 <= v && pre[v].tailList {
-			return "tail-list"
-		}
-	}
-	return "flat"
-}
-
 // runHistory replays hist on im and applies the oracle to the LAST step.
 // wantKey: also compute the BFS state key and the enabled set.
 func runHistory(im impl, hist []*opDef, wantKey bool) (res engine.Result) {
@@ -396,7 +386,10 @@ func runHistory(im impl, hist []*opDef, wantKey bool) (res engine.Result) {
 		}
 		for i := range post {
 			if post[i].bad != "" {
+				// the state is outside the model (a finding was reported, or the unspecified target of a destructive
+				// call is malformed): it gets no key and is never extended; counted so that the masked part is visible
 				res.Outcome = "malformed:" + post[i].bad
+				res.Hit("masked-malformed-state")
 				return
 			}
 		}
@@ -412,6 +405,16 @@ func runHistory(im impl, hist []*opDef, wantKey bool) (res engine.Result) {
 	return
 }
 
+func diffKind(got, want []int64) string {
+	switch {
+	case len(got) < len(want):
+		return "shorter"
+	case len(want) < len(got):
+		return "longer"
+	}
+	return "elements"
+}
+
 func histText(hist []*opDef) string {
 	var parts []string
 	for _, o := range hist {
@@ -422,7 +425,6 @@ func histText(hist []*opDef) string {
 
 // check applies frame / independence / value to the last step.
 func check(res *engine.Result, o *opDef, n int64, pre, post *[3]obsVar, t *track, err *execErr, hist []*opDef) {
-	repr := reprOf(o, pre)
 	ctx := func() string {
 		return fmt.Sprintf("history [%s], last step %s with fresh element %d: before %s, after %s", histText(hist), o.lisp(n),
 			n, showState(pre), showState(post))
@@ -463,16 +465,13 @@ func check(res *engine.Result, o *opDef, n int64, pre, post *[3]obsVar, t *track
 	if 0 < len(t.origin) {
 		res.Hit("illegal-alias-live")
 	}
-	if repr == "tail-list" {
-		res.Hit("tail-list-operand")
-	}
 
 	if err != nil {
 		kind := "error"
 		if err.goFault {
 			kind = "go-fault"
 		}
-		fail(fmt.Sprintf("inv=%s op=%s repr=%s class=%s", kind, o.name, repr, err.class),
+		fail(fmt.Sprintf("inv=%s op=%s class=%s", kind, o.fn, err.class),
 			fmt.Sprintf("%s: raised %s: %s; the reference semantics define a result", ctx(), err.class, err.msg))
 	}
 	// ---- which variables must be unchanged
@@ -513,7 +512,7 @@ func check(res *engine.Result, o *opDef, n int64, pre, post *[3]obsVar, t *track
 		if !o.destr {
 			what = "although " + o.name + " is not a destructive operation"
 		}
-		fail(fmt.Sprintf("inv=%s op=%s alias-from=%s", inv, o.name, from),
+		fail(fmt.Sprintf("inv=%s op=%s alias-from=%s", inv, o.fn, from),
 			fmt.Sprintf("%s: variable %s changed from %s to %s %s (physical alias created by: %s)", ctx(), varNames[v],
 				showObs(&pre[v]), showObs(&post[v]), what, from))
 	}
@@ -533,10 +532,10 @@ func check(res *engine.Result, o *opDef, n int64, pre, post *[3]obsVar, t *track
 		got := &post[o.dst]
 		switch {
 		case got.bad != "":
-			fail(fmt.Sprintf("inv=malformed op=%s repr=%s what=%s", o.name, repr, got.bad),
+			fail(fmt.Sprintf("inv=malformed op=%s what=%s", o.fn, got.bad),
 				fmt.Sprintf("%s: the result is not a list of the elements given: %s; expected %s", ctx(), got.bad, showElems(want)))
 		case !sameElems(got.elems, want):
-			fail(fmt.Sprintf("inv=value op=%s repr=%s", o.name, repr),
+			fail(fmt.Sprintf("inv=value op=%s diff=%s", o.fn, diffKind(got.elems, want)),
 				fmt.Sprintf("%s: %s is %s; the reference result is %s", ctx(), varNames[o.dst], showObs(got), showElems(want)))
 		}
 	}
@@ -545,18 +544,11 @@ func check(res *engine.Result, o *opDef, n int64, pre, post *[3]obsVar, t *track
 		got := &post[o.s]
 		switch {
 		case got.bad != "":
-			fail(fmt.Sprintf("inv=malformed op=%s repr=%s what=%s", o.name, repr, got.bad),
+			fail(fmt.Sprintf("inv=malformed op=%s what=%s", o.fn, got.bad),
 				fmt.Sprintf("%s: the target is no longer a list of fixnums: %s; expected %s", ctx(), got.bad, showElems(want)))
 		case !sameElems(got.elems, want):
-			fail(fmt.Sprintf("inv=target-value op=%s repr=%s", o.name, repr),
+			fail(fmt.Sprintf("inv=target-value op=%s diff=%s", o.fn, diffKind(got.elems, want)),
 				fmt.Sprintf("%s: %s is %s; replacing one element must give %s", ctx(), varNames[o.s], showObs(got), showElems(want)))
-		}
-	}
-	// a variable that was not assigned became malformed
-	for v := 0; v < 3; v++ {
-		if v != o.dst && post[v].bad != "" && pre[v].bad == "" && (o.wantS == nil || v != o.s) {
-			fail(fmt.Sprintf("inv=malformed op=%s repr=%s what=%s", o.name, repr, post[v].bad),
-				fmt.Sprintf("%s: variable %s became %s", ctx(), varNames[v], post[v].bad))
 		}
 	}
 }
